@@ -87,7 +87,7 @@ def gen_cases(tier, seed):
                     sets = rng.sample(sets, 40)
                 for cs in sets:
                     yield {'kind': 'process', 'name': name, 'program': prog, 'inputs': inputs, 'ctx': ctxprog, 'crash': cs,
-                           'transport': rng.choice(transports), 'codec': rng.random() < 0.25, 'other_loop_current': rng.random() < 0.2}
+                           'transport': rng.choice(transports), 'codec': rng.random() < 0.25, 'other_loop_current': rng.choice([False, False, False, False, False, False, True, True, 'none'])}
                 # checkpoints written by a persister; the writing instance runs on for 1-3 boundaries before the crash (lost work)
                 for cs in rng.sample(sets, min(len(sets), 6 if tier == 'quick' else 20)):
                     yield {'kind': 'process', 'name': name, 'program': prog, 'inputs': inputs, 'ctx': ctxprog, 'crash': cs,
@@ -226,14 +226,19 @@ def run_case(case):
             obs['lost_work_restores'] = int(case['lag'] > 0 and r.get('restores', 0) > 0)
         else:
             r = persist.run_with_crashes(make, case['crash'], resume, transport=_transport(case['transport'], workdir),
-                                         other_loop_current=bool(case.get('other_loop_current')),
+                                         other_loop_current=case.get('other_loop_current') or False,
                                          paused_crashes=() if case.get('paused_crash') is None else (case['paused_crash'],))
             obs['paused_hook_checkpoints'] = sum(1 for e in r.get('log', ()) if e[0] == 'checkpoint-in-paused-hook')
             obs['loaded_with_other_loop_current'] = int(bool(case.get('other_loop_current')) and r.get('restores', 0) > 0)
+            obs['loaded_with_no_loop_current'] = int(case.get('other_loop_current') == 'none' and r.get('restores', 0) > 0)
     finally:
         shutil.rmtree(workdir, ignore_errors=True)
     if r.get('inconclusive'):
         viol = []
+        if r['inconclusive'] == 'load-raised':
+            viol.append(V('restore-raised', 'restore-raised:%s' % r['load_raised'].split(':')[0], 'loading the checkpoint raised %s (crash points %s, transport %s, '
+                          'current loop of the loading thread: %s)\n%s' % (r['load_raised'], case['crash'], case.get('transport'),
+                                                                           {True: 'another', 'none': 'none'}.get(case.get('other_loop_current'), 'the same'), r['where'])))
         if str(r['inconclusive']).startswith('stuck'):
             viol.append(V('restored-run-stuck', 'restored-run-stuck:%s' % label, 'restored run got stuck (%s), crash points %s' % (r['inconclusive'], case['crash'])))
         return {'viol': viol, 'obs': obs, 'inconclusive': None if viol else r['inconclusive'], 'key': case, 'nontrivial': False}
